@@ -24,7 +24,8 @@ ALGS = ["md5", "sha1", "sha224", "sha256", "sha384", "sha512"]
 SECRETS = ["", "a", "b", "A", "a ", "aa", "é", "é", "a\x00", {"$": "bigstr", "c": "a", "n": 1000}, V.Y(b"a"), V.Y(b"\xff"),
            "hunter2-ZQX", "pässwörd-ÜÑ", "user:pass", "abcd:efgh", ":", "QUJD:QUJD", "sysadmin:hunter22", "{\"salt\": \"x\"}"]
 FORMATS = ["json", "yaml", "xml", "bson", "pickle"]
-ROUTES = ["attr", "ctor", "default", "default-callable", "digest-default", "load_tree", "document", "list-assign", "list-append", "dict-item"]
+ROUTES = ["attr", "ctor", "default", "default-callable", "digest-default", "load_tree", "document", "document-yaml", "document-xml", "list-assign", "list-append",
+          "dict-item", "list-from-str-proxy", "list-extend-str-proxy", "list-iadd-any-proxy", "sub-document-xml"]
 
 
 def bounds(tier):
@@ -77,6 +78,30 @@ def _place(schema, route, p, alg):
         import json
         cfg = schema(); cfg.loads(json.dumps({"pw": p}), "json")
         return cfg, lambda c: c.pw
+    if route in ("document-yaml", "document-xml", "sub-document-xml"):
+        import cincoconfig as cc2
+        fmt = "yaml" if route == "document-yaml" else "xml"
+        tree = {"pw": p} if not route.startswith("sub") else {"l": [p]}
+        cfg = schema(); cfg.loads(cc2.ConfigFormat.get(fmt).dumps(None, tree), fmt)
+        return cfg, (lambda c: c.pw) if not route.startswith("sub") else (lambda c: c.l[0])
+    if route in ("list-from-str-proxy", "list-extend-str-proxy", "list-iadd-any-proxy"):
+        import cincoconfig as cc2
+        other = cc2.Schema()
+        other.strings = cc2.ListField(cc2.StringField())
+        other.anys = cc2.ListField(cc2.AnyField() if False else cc2.StringField(min_len=0))
+        oc = other()
+        oc.strings = [p]
+        oc.anys = [p]
+        cfg = schema()
+        if route == "list-from-str-proxy":
+            cfg.l = oc.strings
+        elif route == "list-extend-str-proxy":
+            cfg.l = []
+            cfg.l.extend(oc.strings)
+        else:
+            cfg.l = []
+            cfg.l += oc.anys
+        return cfg, lambda c: c.l[0]
     if route == "list-assign":
         cfg = schema(); cfg.l = [p]
         return cfg, lambda c: c.l[0]
@@ -158,11 +183,12 @@ def _pairs(job, ctx):
     secrets = [V.dec(s) for s in SECRETS]
     only = job.get("only")
     for pi, p in enumerate(secrets):
-        if route in ("document", "default", "default-callable", "load_tree") and not isinstance(p, str):  # trees and defaults are text
+        if (route.startswith("document") or route.startswith("sub-document") or route.endswith("proxy") or route in ("default", "default-callable", "load_tree")) and not isinstance(p, str):  # trees and defaults are text
             ctx.skipped += 1
             continue
-        if route == "document" and "\x00" in p:
-            pass
+        if route.endswith("xml") and isinstance(p, str) and ("\x00" in p or not p.strip(" ") == p and False):
+            ctx.skipped += 1
+            continue
         if only is not None and only != pi:
             continue
         fp = "C09|%s|%s|" % (alg, route)
